@@ -4,6 +4,7 @@ package c08
 import (
 	"bytes"
 	"encoding/json"
+	"fmt"
 	"os"
 	"testing"
 	"unicode/utf8"
@@ -432,6 +433,28 @@ func TestTextsRandom(t *testing.T) {
 			rec.ReportSeq(t, "text", tc, func() *vk.Violation { return checkText(tc) })
 			return
 		}
+		if rapid.IntRange(0, 19).Draw(t, "longtext") == 0 {
+			// a long message (up to the 255 x 153 septets the library carries) in which an extension character
+			// straddles a power-of-two offset of the septet stream: ESC is septet B-1, its code septet B
+			B := rapid.SampledFrom([]int{256, 512, 1024, 2048, 4096, 8192, 16384, 32768}).Draw(t, "block")
+			total := B + rapid.SampledFrom([]int{1, 2, 9, 100, 4096}).Draw(t, "after")
+			if total > 39000 {
+				total = 39000
+			}
+			shift := rapid.SampledFrom([]int{-1, -1, -1, 0, -2}).Draw(t, "shift") // ESC at B+shift
+			ext := rapid.SampledFrom([]rune("[]{}^~|\\€\f")).Draw(t, "ext")
+			fill := rapid.SampledFrom([]rune("a1 è@")).Draw(t, "fill")
+			rs = rs[:0]
+			for i := 0; i < B+shift; i++ {
+				rs = append(rs, fill)
+			}
+			rs = append(rs, ext)
+			for i := B + shift + 2; i < total; i++ {
+				rs = append(rs, fill)
+			}
+			n = len(rs)
+			rec.Class("long_text_with_extension_character_across_power_of_two_offset")
+		}
 		if rapid.IntRange(0, 3).Draw(t, "invalid") != 0 { // mostly keep texts inside the alphabet
 			for i, r := range rs {
 				if _, ok := ref.GSMRune(r); !ok {
@@ -451,5 +474,158 @@ func TestTextsRandom(t *testing.T) {
 		rec.Sample("text", map[string]string{"text": txt})
 		tc := TextCase{vk.Hex([]byte(txt))}
 		rec.ReportSeq(t, "text", tc, func() *vk.Violation { return checkText(tc) })
+	})
+}
+
+// StreamCase: one long-lived stream transformer given whole messages directly through Transform, first with
+// a destination that is too small (the call is repeated with a larger one), optionally after a call on
+// ANOTHER message of the same length in the same source buffer that was abandoned when it reported a short
+// destination, followed by Reset. The output must be what the function pair gives.
+type StreamCase struct {
+	Packed  bool   `json:"packed"`
+	Dir     string `json:"dir"`      // "enc" (text -> septets/octets) | "dec"
+	Text    string `json:"text_hex"` // the message (valid GSM 7-bit text)
+	Other   string `json:"other_hex,omitempty"`
+	DstSize int    `json:"dst_size"`
+}
+
+// drive hands the WHOLE message to Transform in one call (atEOF), the way encoding.Encoder.Bytes /
+// transform.Bytes use these transformers, starting with a small destination and starting over with a larger
+// one while the transformer reports a short destination. (The transformers are whole-message converters:
+// they do not implement x/text's incremental contract - nSrc is not maintained - and the property does not
+// ask for it; only their output for a complete message is compared.)
+func drive(tr transform.Transformer, src []byte, dstSize int) ([]byte, error) {
+	if dstSize < 1 {
+		dstSize = 1
+	}
+	for iter := 0; iter < 64; iter++ {
+		dst := make([]byte, dstSize)
+		nDst, _, err := tr.Transform(dst, src, true)
+		if nDst < 0 || nDst > len(dst) {
+			return nil, fmt.Errorf("Transform returned nDst=%d for a %d-octet destination", nDst, len(dst))
+		}
+		switch err {
+		case nil:
+			return dst[:nDst], nil
+		case transform.ErrShortDst:
+			dstSize *= 2
+		default:
+			return nil, err
+		}
+	}
+	return nil, fmt.Errorf("still 'short destination' with %d octets", dstSize)
+}
+
+func checkStream(c StreamCase) *vk.Violation {
+	txt := string(vk.UnHex(c.Text))
+	other := string(vk.UnHex(c.Other))
+	var v *vk.Violation
+	pn := guard("stream", c, func() {
+		sep, err := ref.GSMEncode(txt)
+		if err != nil {
+			return
+		}
+		in, want := []byte(txt), sep
+		if c.Packed {
+			want = ref.GSMPack(sep)
+		}
+		var tr transform.Transformer = g.GSM7(c.Packed).NewEncoder()
+		if c.Dir == "dec" {
+			in, want = want, []byte(txt)
+			if c.Packed {
+				// what the packed form decodes to (end-of-message ambiguities included): the function pair
+				d, e := g.Decode(g.Unpack(append([]byte{}, in...)))
+				if e != nil {
+					return
+				}
+				want = d
+			}
+			tr = g.GSM7(c.Packed).NewDecoder()
+		}
+		name := map[bool]string{false: "unpacked", true: "packed"}[c.Packed] + "-" + c.Dir
+		buf := make([]byte, len(in))
+		if c.Other != "" {
+			// another message of the same length in the same buffer; its call is abandoned at the first short destination
+			osep, oerr := ref.GSMEncode(other)
+			if oerr == nil {
+				o := []byte(other)
+				if c.Dir == "dec" {
+					o = osep
+					if c.Packed {
+						o = ref.GSMPack(osep)
+					}
+				}
+				if len(o) == len(in) && len(o) > 0 {
+					copy(buf, o)
+					_, _, _ = tr.Transform(make([]byte, 1), buf, true)
+					tr.Reset()
+				}
+			}
+		}
+		copy(buf, in)
+		got, err := drive(tr, buf, c.DstSize)
+		if err != nil || !bytes.Equal(got, want) {
+			v = vk.Violf("stream/"+name, c, "%s transformer driven with a %d-octet destination: got %x, %v; the function pair gives %x", name, c.DstSize, clipb(got), err, clipb(want))
+		}
+	})
+	if pn != "" {
+		return vk.Violf("stream/panic", c, "panic\n%s", pn)
+	}
+	return v
+}
+
+func clipb(b []byte) []byte {
+	if len(b) > 48 {
+		return b[:48]
+	}
+	return b
+}
+
+func init() {
+	reg["stream"] = func(raw json.RawMessage) *vk.Violation {
+		var c StreamCase
+		_ = json.Unmarshal(raw, &c)
+		return checkStream(c)
+	}
+}
+
+var gsmPool = []rune("abcXYZ019 @£$ΔΩèéà\r\n[]{}^~|\\€")
+
+func TestStreams(t *testing.T) {
+	rapid.Check(t, func(t *rapid.T) {
+		n := rapid.OneOf(rapid.IntRange(0, 40), rapid.IntRange(0, 400)).Draw(t, "n")
+		mk := func(label string) string {
+			rs := rapid.SliceOfN(rapid.SampledFrom(gsmPool), n, n).Draw(t, label)
+			return string(rs)
+		}
+		c := StreamCase{Packed: rapid.Bool().Draw(t, "packed"), Dir: rapid.SampledFrom([]string{"enc", "dec"}).Draw(t, "dir"),
+			Text: vk.Hex([]byte(mk("text"))), DstSize: rapid.SampledFrom([]int{1, 2, 3, 7, 8, 16, 64, 4096}).Draw(t, "dst")}
+		if rapid.Bool().Draw(t, "abandoned") {
+			// same number of characters of the same classes: very often the same encoded length
+			a := []rune(string(vk.UnHex(c.Text)))
+			b := make([]rune, len(a))
+			for i, r := range a {
+				sep, _ := ref.GSMRune(r)
+				for tries := 0; ; tries++ {
+					x := gsmPool[rapid.IntRange(0, len(gsmPool)-1).Draw(t, "o")]
+					xs, _ := ref.GSMRune(x)
+					if (len(xs) == len(sep) && len(string(x)) == len(string(r))) || tries > 40 {
+						b[i] = x
+						if tries > 40 {
+							b[i] = r
+						}
+						break
+					}
+				}
+			}
+			c.Other = vk.Hex([]byte(string(b)))
+			rec.Class("stream_after_abandoned_call_on_same_buffer")
+		}
+		rec.Eval()
+		if n >= 8 {
+			rec.NonTrivial("stream", c.Packed, c.Dir, c.Text, c.Other, c.DstSize)
+		}
+		rec.Class("stream_transformer_direct")
+		rec.ReportSeq(t, "stream", c, func() *vk.Violation { return checkStream(c) })
 	})
 }
